@@ -20,7 +20,7 @@ RULE = ("add-histories on a fresh HostnameTrieSet: every sequence of length <= 3
         "A case is one history; non-trivial = contains an add that is ignored (shorter exists), prunes (longer exists) or repeats; distinct = distinct history.")
 ASSUMPTIONS = ["reference model: set of canonical hostnames (strip, lower, per-label IDNA decode); subdomain = whole-label suffix",
                "IP literals / localhost are excluded, as the class documents", "ground-truth hostname known from the generator"]
-FLOORS = ["add-ignored-shorter-exists", "add-prunes-1", "add-prunes-many", "add-plain", "add-repeat", "match-true", "match-false", "invariant-walks", "match-subdomain"]
+FLOORS = ["match-interleaved-around-add", "add-ignored-shorter-exists", "add-prunes-1", "add-prunes-many", "add-plain", "add-repeat", "match-true", "match-false", "invariant-walks", "match-subdomain"]
 PROBE_FLOORS = ["TrieDict.set_and_prune_if_shorter"]
 STATE = {"cur": None}
 
@@ -105,8 +105,27 @@ def check_history(ctx, HTS, adds, query_hosts):
                     nontrivial = True
                 else:
                     ctx.count("add-plain")
+            # queries interleaved with the adds: the same URL asked immediately before and immediately after the add that
+            # covers it (an answer remembered across an add would be stale here)
+            iu = "http://%s/i" % c
+            try:
+                before = t.match(iu)
+                want_before = any(under(c, g) for g in S)
+                if before is not want_before:
+                    ctx.viol("C09:match-%s-interleaved-before-add" % ("false-negative" if want_before else "false-positive"), {"adds": adds, "query_host": c},
+                             {"query": iu, "got": before, "want": want_before, "added_so_far": sorted(S)})
+            except Exception as e:
+                ctx.viol("C09:exception:" + ctx.exc("HostnameTrieSet.query", e), {"adds": adds})
             t.add(a)
             S.add(c)
+            try:
+                after = t.match(iu)
+                ctx.count("match-interleaved-around-add")
+                ctx.ev(2)
+                if after is not True:
+                    ctx.viol("C09:match-false-negative-interleaved-after-add", {"adds": adds, "query_host": c}, {"query": iu, "got": after, "want": True, "added_so_far": sorted(S)})
+            except Exception as e:
+                ctx.viol("C09:exception:" + ctx.exc("HostnameTrieSet.query", e), {"adds": adds})
     except Exception as e:
         ctx.viol("C09:exception:" + ctx.exc("HostnameTrieSet.add", e), {"adds": adds})
         return nontrivial
